@@ -204,21 +204,37 @@ Proof.
 Qed.
 
 (* a degenerate advertised pair (c, c): the engine answers [(c, c)], nothing is iterated *)
-Lemma stream_degenerate s fv parts cur c rv out : parts c c = [(c, c)] -> floor_check fv (eff rv cur) = FOk ->
+(* an empty advertised pair (c, c): whatever the engine answers, if the scanner's adjusted partitions are all
+   (c, c) nothing is iterated.  (memkv / the wrapper answer [(c, c)]; the TiKV adapter clamps every region from c on to
+   [max(start, c), min(end, c)) — several pieces, all collapsing to (c, c) once sorted and chained.) *)
+Definition degenerate (parts : partition_fn) (c : bytes) : Prop :=
+  exists qs, adjust_borders (parts c c) = Some qs /\ Forall (fun p => p = (c, c)) qs.
+
+Lemma take_head_all_nil x : forall ls, Forall (fun l : list smsg => l = []) ls -> take_head x ls = None.
+Proof. induction ls as [|l t IH]; intros F; [reflexivity|]. inversion F; subst. cbn [take_head]. rewrite IH by assumption. reflexivity. Qed.
+
+Lemma stream_degenerate s fv parts cur c rv out : degenerate parts c -> floor_check fv (eff rv cur) = FOk ->
   stream_check (stream_model s fv parts cur c c rv) out = true ->
   stream_shape (eff rv cur) out = true /\ stream_kvs out = [].
 Proof.
-  intros PC FL SC. unfold stream_model in SC. fold (eff rv cur) in SC. set (R := eff rv cur) in *.
-  unfold scan in SC. rewrite FL, PC in SC.
-  change (adjust_borders [(c, c)]) with (Some [(c, c)]) in SC. cbn [map fst snd] in SC.
-  unfold iter in SC. rewrite bcmp_refl in SC.
-  cbn in SC.
-  destruct (rev out) as [|lst rdata] eqn:E; [discriminate|]. apply andb_true_iff in SC as [S1 S2].
+  intros (qs & AD & FQ) FL SC. unfold stream_model in SC. fold (eff rv cur) in SC. set (R := eff rv cur) in *.
+  unfold scan in SC. rewrite FL, AD in SC.
+  assert (E : map (fun p => worker_run R (iter s (fst p) (snd p)) (rcv_fork (RStream R [] []))) qs
+            = map (fun _ => WROk 0 (RStream R [] [])) qs).
+  { apply map_ext_in. intros p Hp. rewrite Forall_forall in FQ. rewrite (FQ p Hp). cbn [fst snd].
+    unfold iter. rewrite bcmp_refl. reflexivity. }
+  rewrite E in SC. clear E.
+  assert (X : existsb wres_panic (map (fun _ : part => WROk 0 (RStream R [] [])) qs) = false).
+  { clear. induction qs as [|p t IH]; [reflexivity|exact IH]. }
+  rewrite X in SC. rewrite !map_map in SC. cbn [wres_rcv rcv_close rcv_flush rcv_sent stream_check] in SC.
+  destruct (rev out) as [|lst rdata] eqn:EO; [discriminate|]. apply andb_true_iff in SC as [S1 S2].
   apply smsg_eqb_eq in S1. subst lst.
-  destruct (rev rdata) as [|x o] eqn:E2; [|cbn in S2; discriminate].
-  assert (rdata = []) by (rewrite <- (rev_involutive rdata), E2; reflexivity). subst rdata.
-  assert (out = [term_msg R false]) by (rewrite <- (rev_involutive out), E; reflexivity). subst out.
-  split; [apply (outcome_shape R []); constructor|reflexivity].
+  destruct (rev rdata) as [|x o] eqn:E2.
+  - assert (rdata = []) by (rewrite <- (rev_involutive rdata), E2; reflexivity). subst rdata.
+    assert (out = [term_msg R false]) by (rewrite <- (rev_involutive out), EO; reflexivity). subst out.
+    split; [apply (outcome_shape R []); constructor|reflexivity].
+  - cbn [interleave_check] in S2. rewrite take_head_all_nil in S2; [discriminate|].
+    clear. induction qs as [|p t IH]; constructor; [reflexivity|exact IH].
 Qed.
 
 Lemma seg_empty V c : seg V c c = [].
@@ -242,7 +258,7 @@ Proof. intros (bs & NE & _ & SC & <- & _). apply strict_chain_last_lt; assumptio
 
 (* what the engine must answer for the interval of one advertised pair *)
 Definition pair_valid (parts : partition_fn) (c d : bytes) : Prop :=
-  (c = d /\ parts c d = [(c, d)]) \/ tiling (parts c d) c d.
+  (c = d /\ degenerate parts c) \/ tiling (parts c d) c d.
 
 Lemma seg_index_range V k k' R : wf_store V -> alpha k -> alpha k' ->
   wrun_top R (seg V (encode k 0) (encode k' 0)) = in_range k k' (snapshot V R).
